@@ -62,6 +62,15 @@ def gen_cases(rng, tier):
     lo = rng.choice([0.0, 0.5, -3.0, 2.0, 10.0])
     hi = rng.choice([lo + rng.uniform(0.1, 12.0), lo - rng.uniform(0.1, 5.0) if i % 7 == 0 else lo + 1.0, lo + 1e-3])
     cases.append({"kind": "plot", "lo": lo, "hi": round(hi, 4), "steps": rng.choice([1, 2, 3, 10, 37, 100, 400]), "which": i % 4, "seed": rng.randrange(1 << 30)})
+  # every small row count for the reader (2..40) and a few large ones, in all end-of-file / line-ending combinations
+  for k, nrows in enumerate(list(range(2, 41)) + [63, 64, 65, 255, 256, 257, 1000, 1024, 4097]):
+    xs, ys = gen_data(rng, nrows)
+    cases.append({"kind": "reader", "x": xs, "y": ys, "seed": rng.randrange(1 << 30), "final_newline": bool(k % 2), "crlf": k % 4 >= 2,
+                  "shuffle": k % 3 == 0, "comments": k % 5 == 0})
+  # a sweep over step counts (everything small, m*10^k, 2^k, 5000 m, each with neighbours), all four plot entry points
+  szs = [z for z in spec.edge_sizes(tier, lo=1) if z <= (5001 if tier == "quick" else 40001)]
+  for k, z in enumerate(szs):
+    cases.append({"kind": "plot", "lo": [0.0, 0.5, -2.0][k % 3], "hi": [8.0, 0.5 + z * 0.25, 6.0][k % 3], "steps": z, "which": k % 4, "seed": rng.randrange(1 << 30), "sweep": True})
   return cases
 
 
